@@ -322,7 +322,12 @@ def part_of(eco, text):
     """the partition label of Universe.tla (Part): alpm versions with an explicit pkgrel - in go-univers' reading
     (Alpm!ASplit.hasRel) the digits after a final '-' - are only comparable among themselves, and versions without one among themselves; every other ecosystem has one class.
     Computed from the text so that it also holds for members that do not come from Universe.tla."""
-    return 1 if (eco == "alpm" and re.search(r"-[0-9]+$", text.strip()) is not None) else 0
+    if eco != "alpm" or "-" not in text:
+        return 0
+    # 1: the text ends in "-<digits>" (a pkgrel in go-univers' reading and in libalpm's); 2: a hyphen followed by
+    # something else (part of the pkgver for go-univers, a pkgrel for libalpm's parseEVR): a class of its own, so that
+    # the label does not depend on which of the two readings an implementation follows
+    return 1 if re.search(r"-[0-9]+$", text.strip()) else 2
 
 def stratified(members, n, rnd):
     """seeded sample that covers as many distinct *shapes* as possible: members are grouped by their
